@@ -130,6 +130,20 @@ Theorem C05_failing_reader_rejected :
 Proof. exact failing_reader_rejected. Qed.
 Print Assumptions C05_failing_reader_rejected.
 
+(* a reader that fails or ends before Size bytes were delivered is never accepted, on
+   any path, also behind the LimitReader of LimitedStorage / the file-store fallback
+   (avail = bytes deliverable before the first error of the reader) *)
+Theorem C05_early_failure_rejected :
+  forall (H : str -> str -> str) comb fuel evs d,
+    (Z.of_nat (avail evs) < d_sz d)%Z ->
+    (forall fixed lim buf v, read_all H comb fixed fuel (mkBase evs lim) (d_dg d) (d_sz d) <> ((None, buf), v)) /\
+    (forall lim bufsz out v, copy_buffer H comb true fuel (mkBase evs lim) bufsz (d_dg d) (d_sz d) <> ((None, out), v)) /\
+    (forall fixed lim m e m', mem_push H comb fixed fuel m d (mkBase evs lim) = (e, m') -> e <> None /\ m' = m) /\
+    (forall lim s e s', oci_push H comb true fuel s d (mkBase evs lim) = (e, s') -> e <> None /\ s' = s) /\
+    (forall s name e s', file_push H comb true fuel s name d evs = (e, s') -> e <> None).
+Proof. exact early_failure_rejected. Qed.
+Print Assumptions C05_early_failure_rejected.
+
 (* cas.Memory.Push: success stores exactly the descriptor's bytes; failure changes nothing *)
 Theorem C05_push_memory :
   forall (H : str -> str -> str) comb fixed fuel m d src e m',
